@@ -220,3 +220,74 @@ func runC19Conc(lists int, r *xrun) []Violation {
 	}
 	return out.Viol
 }
+
+// C13: a release racing with look-ups of the same unit (status, list): once the release has answered
+// "released", the unit is unknown, not listed, and its directory is gone — whatever ran in between.
+func runC13ReleaseConc(cmds []string, r *xrun) []Violation {
+	c08cEnv()
+	var out CaseOut
+	w := c08cW
+	var units []string
+	var dirs []string
+	for i := 0; i < 2; i++ {
+		u, err := w.AllocateUnit("stub", nil)
+		if err != nil {
+			out.violate("harness:c13c-alloc", "%v", err)
+			return out.Viol
+		}
+		units = append(units, u.ID())
+		dirs = append(dirs, u.UnitDir())
+	}
+	s := newScheduler()
+	s.extQuiet = 60 * time.Millisecond
+	errs := make([]error, len(cmds))
+	done := make([]bool, len(cmds))
+	for i, c := range cmds {
+		i := i
+		line := strings.NewReplacer("U0", units[0], "U1", units[1]).Replace(c)
+		s.add(fmt.Sprintf("s%d:%s", i, strings.Fields(c)[0]), func() {
+			cc, err := c08cType.InitFromString(line)
+			if err == nil {
+				_, err = cc.ControlFunc(context.Background(), c08cN, stubCfo{})
+			}
+			errs[i], done[i] = err, true
+		})
+	}
+	sr := s.run(r)
+	if sr.deadlock {
+		out.violate("unit:release-race-deadlock", "sessions %v: nobody can move: %s; schedule %v", cmds, sr.stuck, sr.trace)
+		s.abandon()
+		c08cOnce = sync.Once{}
+		return out.Viol
+	}
+	for i, c := range cmds {
+		if !strings.Contains(c, "release") || !done[i] || errs[i] != nil {
+			continue
+		}
+		// this release succeeded
+		which := 1
+		if strings.Contains(c, "U0") {
+			which = 0
+		}
+		id := units[which]
+		ctx := fmt.Sprintf("sessions %v, after %q answered: ", cmds, c)
+		if cc, err := c08cType.InitFromString("status " + id); err == nil {
+			if rep, err := cc.ControlFunc(context.Background(), c08cN, stubCfo{}); err == nil {
+				b, _ := json.Marshal(rep)
+				out.violate("unit:known-after-release:raced-with-lookup", "%sthe unit is still known: status answers %s; schedule %v", ctx, trunc(string(b), 160), sr.trace)
+			}
+		}
+		for _, k := range w.ListKnownUnitIDs() {
+			if k == id {
+				out.violate("unit:listed-after-release:raced-with-lookup", "%sthe unit is still listed; schedule %v", ctx, sr.trace)
+			}
+		}
+		if _, err := os.Stat(dirs[which]); err == nil {
+			out.violate("unit:files-left-after-release:raced-with-lookup", "%sits directory still exists; schedule %v", ctx, sr.trace)
+		}
+	}
+	for _, id := range w.ListKnownUnitIDs() {
+		w.ReleaseUnit(id, true)
+	}
+	return out.Viol
+}
